@@ -13,11 +13,6 @@
 (***************************************************************************)
 EXTENDS OciFilter, Json, IOUtils, TraceHdr
 
-CONSTANTS
-  F6_SubCleansNames,          \* relaxations naming the defects repaired in /repo (kept so that a
-  F7_SubStartNotTranslated,   \* tree without the repairs is classified, not just rejected); all
-  F8_SubUnlimitedScopePanics  \* FALSE: the strict specification
-
 VARIABLES l,      \* next trace line
           kind,   \* wrapper of the current scenario
           pol,    \* its policy table (checker: given; select: derived from the allow set)
